@@ -14,135 +14,167 @@ def add(name, config, primary, quick=(), thorough=(), timeout=1500, mem_gb=24, c
               "cost": cost, "bounds": bounds})
 
 
-GEN = ["C01", "C02", "C03", "C20"]        # generic assertions carried by every schedule harness
 F = "fam_fut::"
 FV = "fam_fut::vec_proofs::"
 S = "fam_stream::"
 SV = "fam_stream::vec_proofs::"
+G = "fam_group::"
+GEN3 = ["C01", "C03", "C20"]
 
 # ------------------------------------------------------------------------------------------
-# futures: join / try_join / race / race_ok           (name, N, rounds, cost)
+# futures (nostd): (name, children, rounds, measured cost under load [s], in quick tier?)
 fut = {
-    "C04": [("join_arr2_r4", 2, 4, 70), ("join_tup2_r4", 2, 4, 25), ("join_arr0_r1", 0, 1, 12),
-            ("join_tup1_r3", 1, 3, 10), ("join_arr1_r3", 1, 3, 17), ("join_ext2_r4", 2, 4, 25),
-            ("join_arr3_r4", 3, 4, 95), ("join_tup3_r4", 3, 4, 32)],
-    "C05": [("tryjoin_arr2_r4", 2, 4, 76), ("tryjoin_tup2_r4", 2, 4, 24), ("tryjoin_arr0_r1", 0, 1, 12),
-            ("tryjoin_arr3_r4", 3, 4, 105), ("tryjoin_tup3_r4", 3, 4, 46)],
-    "C06": [("race_arr2_r4", 2, 4, 12), ("race_tup2_r4", 2, 4, 8), ("race_tup1_r3", 1, 3, 5),
-            ("race_ext2_r4", 2, 4, 8), ("race_arr3_r5", 3, 5, 16), ("race_tup3_r5", 3, 5, 13)],
-    "C07": [("raceok_arr2_r4", 2, 4, 47), ("raceok_tup2_r4", 2, 4, 18), ("raceok_arr0_r1", 0, 1, 8),
-            ("raceok_arr3_r5", 3, 5, 98), ("raceok_tup3_r5", 3, 5, 47)],
+    "C04": [("join_arr2_r4", 2, 4, 70, 1), ("join_tup2_r4", 2, 4, 25, 1), ("join_arr0_r1", 0, 1, 12, 1),
+            ("join_tup1_r3", 1, 3, 10, 1), ("join_arr1_r3", 1, 3, 17, 1), ("join_ext2_r4", 2, 4, 25, 1),
+            ("join_arr3_r3", 3, 3, 50, 1), ("join_tup3_r3", 3, 3, 25, 1),
+            ("join_arr3_r4", 3, 4, 95, 0), ("join_tup3_r4", 3, 4, 32, 0)],
+    "C05": [("tryjoin_arr2_r4", 2, 4, 76, 1), ("tryjoin_tup2_r4", 2, 4, 24, 1), ("tryjoin_arr0_r1", 0, 1, 12, 1),
+            ("tryjoin_arr3_r3", 3, 3, 55, 1), ("tryjoin_tup3_r3", 3, 3, 30, 1),
+            ("tryjoin_arr3_r4", 3, 4, 105, 0), ("tryjoin_tup3_r4", 3, 4, 46, 0)],
+    "C06": [("race_arr2_r4", 2, 4, 12, 1), ("race_tup2_r4", 2, 4, 8, 1), ("race_tup1_r3", 1, 3, 5, 1),
+            ("race_ext2_r4", 2, 4, 8, 1), ("race_arr3_r5", 3, 5, 16, 1), ("race_tup3_r5", 3, 5, 13, 1),
+            ("race_arr3_r3", 3, 3, 10, 1), ("race_tup3_r3", 3, 3, 10, 1)],
+    "C07": [("raceok_arr2_r4", 2, 4, 47, 1), ("raceok_tup2_r4", 2, 4, 18, 1), ("raceok_arr0_r1", 0, 1, 8, 1),
+            ("raceok_arr3_r3", 3, 3, 50, 1), ("raceok_tup3_r3", 3, 3, 25, 1),
+            ("raceok_arr3_r5", 3, 5, 98, 0), ("raceok_tup3_r5", 3, 5, 47, 0)],
 }
-QUICK_GENERIC = {"join_tup2_r4", "tryjoin_tup2_r4", "race_arr2_r4", "raceok_tup2_r4", "join_arr2_r4"}
+QUICK_GENERIC = {"join_tup2_r4", "tryjoin_tup2_r4", "race_arr2_r4", "raceok_tup2_r4", "join_arr2_r4", "join_tup3_r3"}
 for prop, lst in fut.items():
-    for (n, N, R, cost) in lst:
-        heavy = cost > 80
-        q = [] if heavy else [prop]
+    for (n, N, R, cost, q) in lst:
+        qq = [prop] if q else []
         if n in QUICK_GENERIC:
-            q += ["C01", "C03", "C20"]
-        add(F + n, "nostd", prop, quick=q, thorough=[prop] + ["C01", "C03", "C20"], cost=cost,
-            children=N, rounds=R, pending="unbounded within rounds", container=n.split("_")[1])
-# drop harnesses (C02 primary; they also decide their family's "dropped, never returned" clauses)
+            qq += GEN3
+        add(F + n, "nostd", prop, quick=qq, thorough=[prop] + GEN3, cost=cost,
+            children=N, rounds=R, container=n.split("_")[1])
+# drop harnesses (primary C02; they also decide their family's "dropped, never returned" clauses)
 for (n, fam, cost) in [("join_arr2_r3_drop", "C04", 65), ("join_tup2_r3_drop", "C04", 16),
                        ("tryjoin_arr2_r3_drop", "C05", 71), ("tryjoin_tup2_r3_drop", "C05", 20),
                        ("race_arr2_r3_drop", "C06", 9), ("raceok_arr2_r3_drop", "C07", 45),
                        ("raceok_tup2_r3_drop", "C07", 16)]:
-    quick = ["C02"] if cost < 50 else []
-    if fam in ("C05", "C06", "C07") and cost < 50:
-        quick.append(fam)
-    add(F + n, "nostd", "C02", quick=quick, thorough=["C02", "C03", fam], cost=cost, children=2, rounds=3,
-        drop_point="symbolic 0..=3 polls")
+    add(F + n, "nostd", "C02", quick=["C02"] + ([fam] if fam != "C04" else []), thorough=["C02", "C03", fam],
+        cost=cost, children=2, rounds=3, drop_point="symbolic 0..=3 polls")
 # Vec (alloc configuration)
-for (n, prop, cost, q) in [("join_vec0_r1", "C04", 14, True), ("join_vec2_r3", "C04", 150, True),
-                           ("join_vec2_r4", "C04", 324, False), ("join_vec3_r4", "C04", 358, False),
-                           ("tryjoin_vec0_r1", "C05", 14, True), ("tryjoin_vec2_r3", "C05", 180, True),
-                           ("tryjoin_vec2_r4", "C05", 421, False),
-                           ("race_vec2_r4", "C06", 15, True), ("race_vec3_r5", "C06", 32, True),
-                           ("raceok_vec0_r1", "C07", 7, True), ("raceok_vec2_r3", "C07", 150, True),
-                           ("raceok_vec2_r4", "C07", 279, False)]:
-    add(FV + n, "alloc", prop, quick=[prop] if q else [], thorough=[prop, "C01", "C03", "C20"], cost=cost,
-        container="Vec")
-for (n, fam, cost) in [("join_vec2_r3_drop", "C04", 258), ("raceok_vec2_r3_drop", "C07", 168)]:
-    add(FV + n, "alloc", "C02", quick=[], thorough=["C02", fam], cost=cost, container="Vec",
+for (n, prop, cost, q) in [("join_vec0_r1", "C04", 14, 1), ("join_vec2_r3", "C04", 150, 1),
+                           ("join_vec2_r4", "C04", 324, 0), ("join_vec3_r4", "C04", 358, 0),
+                           ("tryjoin_vec0_r1", "C05", 14, 1), ("tryjoin_vec2_r3", "C05", 180, 1),
+                           ("tryjoin_vec2_r4", "C05", 421, 0),
+                           ("race_vec2_r4", "C06", 15, 1), ("race_vec3_r5", "C06", 32, 1),
+                           ("raceok_vec0_r1", "C07", 7, 1), ("raceok_vec2_r3", "C07", 150, 1),
+                           ("raceok_vec2_r4", "C07", 279, 0), ("raceok_vec3_r5", "C07", 480, 0)]:
+    add(FV + n, "alloc", prop, quick=[prop] if q else [], thorough=[prop] + GEN3, cost=cost, container="Vec")
+for (n, fam, cost, q) in [("join_vec2_r3_drop", "C04", 258, 0), ("raceok_vec2_r3_drop", "C07", 168, 1)]:
+    add(FV + n, "alloc", "C02", quick=["C02"] if q else [], thorough=["C02", fam], cost=cost, container="Vec",
         drop_point="symbolic 0..=3 polls")
 
 # ------------------------------------------------------------------------------------------
-# streams
+# streams (nostd)
 st = {
-    "C08": [("merge_arr2_k2_r5", 45), ("merge_tup2_k2_r5", 34), ("merge_ext2_k2_r5", 36), ("merge_tup1_k2_r4", 13),
-            ("merge_arr0_r1", 8), ("merge_tup0_r1", 4), ("merge_arr3_k1_r6", 72), ("merge_tup3_k1_r6", 68),
-            ("merge_arr2_k1_r3", 15), ("merge_tup2_k1_r3", 12)],
-    "C09": [("zip_arr2_k2_r5", 75), ("zip_tup2_k2_r5", 61), ("zip_ext2_k2_r5", 61), ("zip_tup1_k2_r4", 19),
-            ("zip_arr3_k1_r5", 121), ("zip_tup3_k1_r5", 96), ("zip_arr2_k1_r3", 20), ("zip_tup2_k1_r3", 18)],
-    "C10": [("chain_arr2_k1_r4", 40), ("chain_tup2_k1_r4", 30), ("chain_ext2_k1_r4", 30), ("chain_arr0_r1", 4),
-            ("chain_arr2_k2_r6", 289), ("chain_tup2_k2_r6", 135), ("chain_arr3_k1_r6", 359), ("chain_tup3_k1_r6", 253)],
+    "C08": [("merge_arr2_k2_r5", 45, 1), ("merge_tup2_k2_r5", 34, 1), ("merge_ext2_k2_r5", 36, 1), ("merge_tup1_k2_r4", 13, 1),
+            ("merge_arr0_r1", 8, 1), ("merge_tup0_r1", 4, 1), ("merge_arr3_k1_r4", 40, 1), ("merge_tup3_k1_r4", 40, 1),
+            ("merge_arr2_k1_r3", 15, 0), ("merge_tup2_k1_r3", 12, 0), ("merge_arr3_k1_r6", 72, 0), ("merge_tup3_k1_r6", 68, 0)],
+    "C09": [("zip_arr2_k2_r5", 75, 1), ("zip_tup2_k2_r5", 61, 1), ("zip_ext2_k2_r5", 61, 1), ("zip_tup1_k2_r4", 19, 1),
+            ("zip_arr3_k1_r3", 40, 1), ("zip_tup3_k1_r3", 35, 1), ("zip_arr2_k1_r3", 20, 0), ("zip_tup2_k1_r3", 18, 0),
+            ("zip_arr3_k1_r5", 121, 0), ("zip_tup3_k1_r5", 96, 0)],
+    "C10": [("chain_arr2_k1_r4", 40, 1), ("chain_tup2_k1_r4", 30, 1), ("chain_ext2_k1_r4", 30, 1), ("chain_arr0_r1", 4, 1),
+            ("chain_arr3_k1_r3", 40, 1), ("chain_tup3_k1_r3", 35, 1),
+            ("chain_arr2_k2_r6", 289, 0), ("chain_tup2_k2_r6", 135, 0), ("chain_arr3_k1_r6", 359, 0), ("chain_tup3_k1_r6", 253, 0)],
 }
-QUICK_GENERIC_S = {"merge_tup2_k2_r5", "zip_arr2_k2_r5", "chain_tup2_k1_r4", "merge_arr2_k2_r5"}
+QUICK_GENERIC_S = {"merge_tup2_k2_r5", "zip_arr2_k2_r5", "chain_tup2_k1_r4", "merge_arr2_k2_r5", "merge_arr3_k1_r4"}
 for prop, lst in st.items():
-    for (n, cost) in lst:
-        q = [prop] if cost <= 80 else []
+    gen = ["C01", "C03"] + (["C20"] if prop != "C10" else [])
+    for (n, cost, q) in lst:
+        qq = [prop] if q else []
         if n in QUICK_GENERIC_S:
-            q += ["C01", "C03"] + (["C20"] if prop != "C10" else [])
-        gen = ["C01", "C03"] + (["C20"] if prop != "C10" else [])
-        add(S + n, "nostd", prop, quick=q, thorough=[prop] + gen, cost=cost)
+            qq += gen
+        add(S + n, "nostd", prop, quick=qq, thorough=[prop] + gen, cost=cost)
 for (n, fam, cost) in [("merge_arr2_k2_r4_drop", "C08", 37), ("merge_tup2_k2_r4_drop", "C08", 25),
                        ("zip_arr2_k2_r4_drop", "C09", 65), ("zip_tup2_k2_r4_drop", "C09", 51),
                        ("chain_arr2_k2_r4_drop", "C10", 108)]:
-    add(S + n, "nostd", "C02", quick=["C02"] + ([fam] if fam == "C09" else []) if cost < 70 else [],
+    add(S + n, "nostd", "C02", quick=(["C02"] + ([fam] if fam == "C09" else [])) if cost < 70 else [],
         thorough=["C02", "C03", fam], cost=cost, drop_point="symbolic 0..=4 polls")
-for (n, prop, cost, q) in [("merge_vec2_k2_r5", "C08", 62, True), ("merge_vec0_r1", "C08", 10, True),
-                           ("zip_vec2_k2_r5", "C09", 146, True), ("chain_vec2_k1_r4", "C10", 60, True),
-                           ("chain_vec0_r1", "C10", 8, True), ("chain_vec2_k2_r6", "C10", 312, False)]:
+for (n, prop, cost, q) in [("merge_vec2_k2_r5", "C08", 62, 1), ("merge_vec0_r1", "C08", 10, 1), ("merge_vec3_k1_r3", "C08", 90, 1),
+                           ("zip_vec2_k2_r5", "C09", 146, 1), ("zip_vec2_k1_r3", "C09", 60, 0),
+                           ("chain_vec2_k1_r4", "C10", 60, 1), ("chain_vec3_k1_r3", "C10", 90, 1),
+                           ("chain_vec0_r1", "C10", 8, 1), ("chain_vec2_k2_r6", "C10", 312, 0)]:
     add(SV + n, "alloc", prop, quick=[prop] if q else [], thorough=[prop, "C01", "C03"], cost=cost, container="Vec")
 for (n, fam, cost) in [("merge_vec2_k2_r4_drop", "C08", 58), ("zip_vec2_k2_r4_drop", "C09", 115)]:
-    add(SV + n, "alloc", "C02", quick=["C02"] if cost < 70 else [], thorough=["C02", fam], cost=cost, container="Vec")
+    add(SV + n, "alloc", "C02", quick=["C02", fam], thorough=["C02", fam], cost=cost, container="Vec")
 # wait_until
 add(S + "waituntil_stream_k2_r6", "nostd", "C19", quick=["C19"], thorough=["C19", "C03"], cost=22, rounds=6, items=2)
 add(S + "waituntil_future_r5", "nostd", "C19", quick=["C19"], thorough=["C19", "C03"], cost=11, rounds=5)
 # fairness
 add("unit::indexer_rotation", "nostd", "C17", quick=["C17", "C06"], cost=5, max="1..=16", offset="0..=17 previous calls")
-for (n, cost, q) in [("fair_merge_arr2_r5", 19, True), ("fair_merge_tup2_r5", 17, True),
-                     ("fair_merge_arr3_r7", 76, False), ("fair_merge_tup3_r7", 66, False)]:
-    add(S + n, "nostd", "C17", quick=["C17"] if q else [], thorough=["C17"], cost=cost,
-        favoured="symbolic position, always has an item")
+for (n, cost) in [("fair_merge_arr2_r5", 19), ("fair_merge_tup2_r5", 17), ("fair_merge_arr3_r7", 76), ("fair_merge_tup3_r7", 66)]:
+    add(S + n, "nostd", "C17", quick=["C17"], thorough=["C17"], cost=cost, favoured="symbolic position, always has an item")
 add(SV + "fair_merge_vec2_r5", "alloc", "C17", quick=["C17"], thorough=["C17"], cost=30)
+add(SV + "fair_merge_vec3_r7", "alloc", "C17", quick=["C17"], thorough=["C17"], cost=200)
 
 # ------------------------------------------------------------------------------------------
 # std configuration: readiness tracking really reads bits (C01 wake path, C16)
 STD = ["C01", "C16"]
 add("unit::std_wakers::waker_array_k5", "std", "C01", quick=STD, cost=40, ops=5, slots=2)
 add("unit::std_wakers::waker_array_k7", "std", "C01", thorough=STD, cost=120, ops=7, slots=2)
-add("unit::std_wakers::waker_vec_k5", "std", "C01", quick=STD, cost=300, ops=5, slots="1 -> 3 (resize)")
-add(F + "join_arr2_r4", "std", "C16", quick=STD + ["C04", "C20"], thorough=["C03"], cost=40, children=2, rounds=4)
-add(F + "join_arr2_r3", "std", "C16", quick=[], thorough=STD, cost=30, children=2, rounds=3)
+add("unit::std_wakers::waker_vec_k3", "std", "C01", quick=STD, cost=40, ops=3, slots="1 -> 3 (resize)")
+add(F + "join_arr2_r4", "std", "C16", quick=STD + ["C04", "C20", "C03"], cost=40, children=2, rounds=4)
+add(F + "join_arr3_r3", "std", "C16", quick=STD + ["C04", "C20"], thorough=["C03"], cost=60, children=3, rounds=3)
 add(F + "tryjoin_arr2_r3", "std", "C16", quick=STD + ["C05"], thorough=["C03", "C20"], cost=100, children=2, rounds=3)
+add(F + "tryjoin_arr3_r3", "std", "C16", thorough=STD + ["C05", "C03", "C20"], cost=150, children=3, rounds=3)
 add(F + "tryjoin_arr2_r4", "std", "C16", thorough=STD + ["C05", "C03", "C20"], cost=270, children=2, rounds=4)
 add(F + "join_tup2_r3", "std", "C16", quick=STD + ["C04"], thorough=["C03", "C20"], cost=150, children=2, rounds=3)
-add(F + "tryjoin_tup2_r3", "std", "C16", thorough=STD + ["C05", "C03", "C20"], cost=200, children=2, rounds=3)
+add(F + "tryjoin_tup2_r3", "std", "C16", quick=STD + ["C05"], thorough=["C03", "C20"], cost=160, children=2, rounds=3)
+add(F + "join_tup3_r3", "std", "C16", thorough=STD + ["C04", "C03", "C20"], cost=260, children=3, rounds=3)
 add(F + "join_tup2_r4", "std", "C16", thorough=STD + ["C04", "C03", "C20"], cost=300, children=2, rounds=4)
+add(FV + "join_vec2_r2_quiet", "std", "C16", quick=["C16", "C04"], thorough=["C01", "C03"], cost=380, timeout=2400, mem_gb=40, children=2, rounds=2,
+    note="children do not wake from inside a poll")
 add(S + "merge_arr2_k1_r3", "std", "C16", quick=STD + ["C08"], thorough=["C03", "C20"], cost=200, children=2, rounds=3)
-add(S + "merge_tup2_k1_r3", "std", "C16", thorough=STD + ["C08", "C03", "C20"], cost=200, children=2, rounds=3)
-add(S + "zip_arr2_k1_r3", "std", "C16", quick=STD + ["C09"], thorough=["C03", "C20"], cost=200, children=2, rounds=3)
-add(S + "zip_tup2_k1_r3", "std", "C16", thorough=STD + ["C09", "C03", "C20"], cost=200, children=2, rounds=3)
-add(S + "merge_arr2_k2_r5", "std", "C16", thorough=STD + ["C08", "C03", "C20"], cost=830, timeout=2400, children=2, rounds=5)
-add(S + "merge_tup2_k2_r5", "std", "C16", thorough=STD + ["C08", "C03", "C20"], cost=830, timeout=2400, children=2, rounds=5)
-add(S + "zip_arr2_k2_r5", "std", "C16", thorough=STD + ["C09", "C03", "C20"], cost=660, timeout=2400, children=2, rounds=5)
+add(S + "merge_tup2_k1_r3", "std", "C16", quick=STD + ["C08"], thorough=["C03", "C20"], cost=200, children=2, rounds=3)
+add(S + "zip_arr2_k1_r3", "std", "C16", quick=STD + ["C09"], thorough=["C03", "C20"], cost=240, children=2, rounds=3)
+add(S + "zip_tup2_k1_r3", "std", "C16", quick=STD + ["C09"], thorough=["C03", "C20"], cost=240, children=2, rounds=3)
+add(SV + "zip_vec2_k1_r3", "std", "C16", thorough=["C16", "C09", "C01"], cost=380, timeout=2400, mem_gb=40, children=2, rounds=3)
+add(S + "merge_arr2_k2_r5", "std", "C16", thorough=STD + ["C08", "C03", "C20"], cost=830, timeout=3000, mem_gb=40, children=2, rounds=5)
+add(S + "merge_tup2_k2_r5", "std", "C16", thorough=STD + ["C08", "C03", "C20"], cost=830, timeout=3000, mem_gb=40, children=2, rounds=5)
+add(S + "zip_arr2_k2_r5", "std", "C16", thorough=STD + ["C09", "C03", "C20"], cost=660, timeout=3000, mem_gb=40, children=2, rounds=5)
 # pass-through combinators in std (same code, but run once with the std waker types linked in)
 add(F + "race_arr2_r4", "std", "C06", thorough=["C06", "C01", "C03"], cost=20)
 add(S + "fair_merge_arr2_r5", "std", "C17", thorough=["C17"], cost=300)
 
 # ------------------------------------------------------------------------------------------
+# groups (alloc configuration, with the verif-keyset hook): scripted operation histories
+GF = ["C11", "C03", "C20", "C02"]
+for (n, cost, hist) in [("fgroup_micro2", 10, "insert, poll"), ("fgroup_micro3", 20, "insert, poll, poll"),
+                        ("fgroup_micro4", 30, "insert, insert, poll, poll"),
+                        ("fgroup_drain2", 100, "insert x2, poll x4"), ("fgroup_keyed_drain2", 100, "keyed: insert x2, poll x4"),
+                        ("fgroup_ins3_poll3", 60, "insert x3, poll x3"),
+                        ("fgroup_remove_mid", 30, "insert, insert, remove(first), poll, insert, poll"),
+                        ("fgroup_keyed_remove_mid", 30, "keyed: insert, insert, remove(first), poll, insert, poll"),
+                        ("fgroup_rsv_first", 20, "reserve(2), insert, insert, poll, poll"),
+                        ("fgroup_reuse_after_remove", 25, "insert, poll (pending), remove, insert (slot reused), poll, poll"),
+                        ("fgroup_grow_live", 25, "insert, poll (pending), insert (capacity grows), poll, poll")]:
+    add(G + n, "alloc", "C11", quick=["C11"] + (["C03", "C20", "C02"] if n in ("fgroup_ins3_poll3", "fgroup_remove_mid") else []),
+        thorough=GF, cost=cost, history=hist, members="<= 3", member_behaviour="symbolic, no wake-ups from inside polls (alloc: wakers carry no readiness)")
+GS = ["C12", "C03", "C20", "C02"]
+for (n, cost, hist) in [("sgroup_micro2", 10, "insert, poll"), ("sgroup_keyed_micro2", 10, "keyed: insert, poll"),
+                        ("sgroup_rem_then_poll", 12, "insert, insert, remove(first), poll"),
+                        ("sgroup_pending_then_any", 12, "insert, poll (pending), poll"),
+                        ("sgroup_item_then_any", 12, "insert, poll (item), poll"),
+                        ("sgroup_keyed_item_then_any", 12, "keyed: insert, poll (item), poll"),
+                        ("sgroup_items_in_order", 60, "insert, poll (item), poll (item), poll"),
+                        ("sgroup_two_end_same_poll", 140, "insert, insert, poll")]:
+    add(G + n, "alloc", "C12", quick=["C12"] + (["C03", "C20", "C02"] if n in ("sgroup_item_then_any", "sgroup_rem_then_poll") else []),
+        thorough=GS, cost=cost, history=hist, members="<= 2", member_behaviour="symbolic where not scripted, no wake-ups from inside polls")
+
+# ------------------------------------------------------------------------------------------
 # concurrent-stream adapters (alloc)
 C = "fam_costream::"
-for (n, cost, q) in [("co_take_l2", 170, True), ("co_take_l0", 10, True), ("co_take_l1", 40, True),
-                     ("co_enumerate_l2", 100, True), ("co_map_l2", 120, True),
-                     ("co_enumerate_take_l2", 250, True), ("co_take_enumerate_l2", 250, False),
-                     ("co_map_take_l2", 300, False), ("co_take_map_l2", 300, False), ("co_take_take_l2", 250, True),
-                     ("co_limit_map_take_l2", 300, False), ("co_enumerate_map_take_l2", 400, False),
-                     ("co_take_enumerate_map_l2", 400, False), ("co_limit_forwarding", 5, True),
-                     ("co_take_l3", 600, False), ("co_enumerate_take_l3", 900, False)]:
-    add(C + n, "alloc", "C15", quick=["C15"] if q else [], thorough=["C15"], cost=cost, timeout=2400,
-        source_len=n[-1] if n[-2] == "l" else "n/a", n="symbolic 0..=3", pending_per_item="0..=1")
+for (n, cost, q) in [("co_take_l2", 170, 1), ("co_take_l0", 10, 1), ("co_take_l1", 40, 1),
+                     ("co_enumerate_l2", 100, 1), ("co_map_l2", 120, 1),
+                     ("co_enumerate_take_l2", 250, 1), ("co_take_enumerate_l2", 250, 0),
+                     ("co_map_take_l2", 300, 1), ("co_take_map_l2", 300, 0), ("co_take_take_l2", 250, 1),
+                     ("co_limit_map_take_l2", 300, 0), ("co_enumerate_map_take_l2", 400, 0),
+                     ("co_take_enumerate_map_l2", 400, 0), ("co_limit_forwarding", 5, 1),
+                     ("co_take_l3", 600, 0), ("co_enumerate_take_l3", 900, 0)]:
+    add(C + n, "alloc", "C15", quick=["C15"] if q else [], thorough=["C15"], cost=cost, timeout=3000, mem_gb=30,
+        source_len=n[-1] if n[-2] == "l" else "n/a", n="symbolic 0..=3", pending_per_item="0..=1 (0 for depth 3)")
 
 ASSUMPTIONS = [
     "bounded: every claim holds only for the children / rounds / items / history lengths listed per harness (unwinding assertions are on, so a bound that is too small is reported, not silently truncated)",
@@ -183,6 +215,8 @@ TEXT = {
     "C08": "BMC of merge: every item exactly once and in its input's order, None iff all inputs ended (first poll for zero inputs), never Pending in a poll in which an input produced an item.",
     "C09": "BMC of zip: k-th row = k-th items positionally, None in the poll in which an input ends, at most one extra item taken per input, unmatched items dropped not yielded.",
     "C10": "BMC of chain: output is the concatenation in input order; an input is not polled before all earlier inputs returned None; None after the last input (first poll for zero inputs).",
+    "C11": "BMC of FutureGroup over scripted operation histories (insert / remove / reserve / poll, plain and keyed view, slot reuse after removal, growth while a member is pending) with symbolic member behaviour, against a reference set of live flags: len/is_empty/contains_key/capacity after every step, keys of live members distinct, each output exactly once with its key, removed members dropped at removal and never polled, None iff empty. Key set = verif-keyset hook instead of BTreeSet.",
+    "C12": "BMC of StreamGroup over short scripted histories (insert / remove / poll, plain and keyed): items exactly once and in member order with the right key, members that end are dropped and forgotten in that poll (also two in one poll), len/is_empty/contains_key exact, None iff no members remain. Key set = verif-keyset hook instead of BTreeSet.",
     "C15": "BMC of the real Take/Enumerate/Map/Limit adapters (and their private consumers/futures) between a harness source and sink through the public ConcurrentStream/Consumer traits: exactly the first min(n,len) items, none for n = 0, enumerate index = source position, map closure once per item, limit forwarding.",
     "C16": "BMC in the std configuration: scripted children assert that a re-poll after Pending only happens if one of their wakers fired (or they were legitimately re-armed after yielding); unit proofs show that only a wake of sub-waker i sets bit i and that an already-ready child does not wake the task again.",
     "C17": "Unit proof that the real Indexer::iter yields the rotation (offset+k) mod max for every max in 1..=16 and every offset, plus merge-level BMC with an always-ready input at a solver-chosen position: never N consecutive items without one of its items.",
@@ -193,8 +227,6 @@ TEXT = {
 NOTE = "Trusted: rustc/Kani 0.68 code generation, CBMC 6.11 + CaDiCaL, std's Mutex/Arc/BTreeSet; stubs listed in DESIGN.md section 2.5; bounds per harness in harnesses.json (N <= 3 children, <= 7 polls, <= 7 items); no unwinding (panic = end of path); sequential execution."
 
 NA = [
-    ("C11", "FutureGroup keeps its key set in a BTreeSet<usize> (a BTreeMap with zero-sized values): CBMC loses pointer precision on the node arrays of zero-sized values and explores node splits/merges that cannot happen; even a 2-step history (insert, poll) did not finish in 15 min / 30 GB. The property is left undecided rather than decided on a model of the group."),
-    ("C12", "StreamGroup: same BTreeSet (plus SmallVec removal queue) obstacle as C11; no history harness finished within 15 min / 30 GB."),
     ("C13", "for_each is only reachable through futures_buffered::FuturesUnordered (spin mutex, diatomic-waker try-lock loops, intrusive waker slab): a single poll of a 2-item for_each exhausted 14 GB in CBMC; replacing it by a model would decide the model, not the code."),
     ("C14", "try_for_each / collect::<Result<Vec<_>,_>>: same FuturesUnordered dependency as C13; not encodable within the sandbox's memory."),
     ("C18", "Send/Sync propagation is decided by rustc's trait solver parametrically at compile time; there is no execution to make symbolic and no SMT query to pose - a type check is a different technique from the one this task studies."),
@@ -220,10 +252,10 @@ def manifest():
         "version": 1,
         "setup_cmd": "./setup.sh",
         "hooks": {
-            "guard": "futures_concurrency_verif (unused: no hook was needed)",
-            "enable": "none - harness crate /verif/harness depends on /repo by path; private utilities are compiled through #[path]",
+            "guard": "cargo feature `verif-keyset` of futures-concurrency (off by default)",
+            "enable": "the harness crate /verif/harness enables futures-concurrency/verif-keyset in its alloc and std configurations (FutureGroup/StreamGroup then keep their keys in src/utils/verif_keyset.rs instead of BTreeSet); everything else needs no hook: path dependency on /repo, private utilities compiled through #[path]",
             "baseline_off_cmd": "cd /repo && cargo test --workspace --no-fail-fast --offline",
-            "source_commits": [],
+            "source_commits": ["8d4d057"],
             "add_only": True,
         },
         "engines": [{"name": "kani-cbmc", "path": "/verif/check", "serves_properties": props,
